@@ -1024,3 +1024,71 @@ def rule_memo1(ctx: Ctx) -> RuleResult:
     if n < 4:
         raise AnalysisError(f"INFPURE-1: only {n} methods of MetadataGenerator found")
     return rr
+
+
+def rule_iface1(ctx: Ctx) -> RuleResult:
+    """IFACE-1: every IR node class implements the walking / rewriting interface the simplifier and the registry rely on."""
+    rr = RuleResult("IFACE-1", "IR node classes agree on the interface: iteration, replace() returning the node, hashing", floor=8)
+    prog = ctx.prog
+    base = prog.cls("json_to_models/dynamic_typing/base.py", "BaseType")
+
+    def abstract(f: FuncInfo) -> bool:
+        body = [s_ for s_ in f.node.body if not (isinstance(s_, ast.Expr) and isinstance(s_.value, ast.Constant))]
+        return len(body) == 1 and isinstance(body[0], ast.Raise) and "NotImplementedError" in norm(body[0])
+
+    # string pseudo-types take part in the IR as classes, not as instances: the instance interface is not theirs
+    ss = next((c for c in prog.subclasses(base, strict=True) if c.name == "StringSerializable"), None)
+    pseudo = set(prog.subclasses(ss)) if ss is not None else set()
+    nodes_ = [c for c in prog.subclasses(base, strict=True) if c not in pseudo]
+    n = 0
+    for k in sorted(nodes_, key=lambda c: c.qualname):
+        n += 1
+        for meth in ("__iter__", "replace", "to_typing_code"):
+            impl = prog.lookup_method(k, meth)
+            rr.instances += 1
+            ok = bool(impl) and not abstract(impl[0])
+            rr.ob(k.module.relpath, k.qualname, f"{k.name}.{meth}", f"`{meth}` is implemented (the simplifier, the registry and the "
+                  f"renderer call it on every node)", DISCHARGED if ok else VIOLATED,
+                  f"{impl[0].qualname}" if ok else "only the abstract version that raises NotImplementedError is found", k.node.lineno)
+        rr.instances += 1
+        hs = [prog.lookup_method(k, "to_hash_string"), prog.lookup_method(k, "_to_hash_string")]
+        okh = any(h and not abstract(h[0]) and (h[0].cls is not base) for h in hs)
+        rr.ob(k.module.relpath, k.qualname, f"{k.name}.to_hash_string", "the node can be hashed for de-duplication inside unions",
+              DISCHARGED if okh else VIOLATED, "implemented" if okh else "no concrete _to_hash_string / to_hash_string", k.node.lineno)
+    # replace(): returns the node itself on every way out
+    for k in nodes_:
+        for f in k.methods.get("replace", []):
+            if abstract(f):
+                continue
+            rr.instances += 1
+            rets = [r for r in walk_no_nested(f.node) if isinstance(r, ast.Return)]
+            cfg = ctx.cfg(f)
+            # a path that falls off the end returns None
+            falls = any(cfg.nodes[a].stmt is not None and not isinstance(cfg.nodes[a].stmt, (ast.Return, ast.Raise))
+                        for a, outs in cfg.succ.items() for b, lab in outs if b == cfg.exit and lab != "exc")
+            bad = [r for r in rets if r.value is None or not (norm(r.value) == "self" or (
+                isinstance(r.value, ast.Call) and norm(r.value.func).startswith("super()") and norm(r.value.func).endswith(".replace")))]
+            ok = bool(rets) and not bad and not falls
+            rr.ob(f.relpath, f.qualname, norm(rets[0]) if rets else "replace", "replace() hands back the node it rewrote in place: "
+                  "optimize_type returns that value as the simplified type", DISCHARGED if ok else VIOLATED,
+                  "returns self on every way out" if ok else
+                  ("a path ends without return: the caller receives None as the simplified type" if falls or not rets else
+                   f"`{norm(bad[0])}` is not the node itself"), f.node.lineno)
+    # containers: replace() writes what __iter__ reads
+    for cname, attr in (("SingleType", "type"), ("ComplexType", "types")):
+        k = next((c for c in prog.subclasses(base, strict=True) if c.name == cname), None)
+        if k is None:
+            raise AnalysisError(f"IFACE-1: {cname} vanished")
+        rr.instances += 1
+        it = k.methods.get("__iter__", [None])[0]
+        rp = k.methods.get("replace", [None])[0]
+        reads = it is not None and any(isinstance(x, ast.Attribute) and x.attr in (attr, "_" + attr) and norm(x.value) == "self"
+                                       for x in ast.walk(it.node))
+        writes = rp is not None and any(isinstance(x, ast.Attribute) and x.attr in (attr, "_" + attr) and norm(x.value) == "self"
+                                        and isinstance(x.ctx, ast.Store) for x in ast.walk(rp.node))
+        rr.ob(k.module.relpath, k.qualname, f"{cname}.{attr}", f"`__iter__` yields and `replace` rewrites the same member (`{attr}`)",
+              DISCHARGED if reads and writes else VIOLATED,
+              "same member" if reads and writes else f"__iter__ reads it: {reads}; replace writes it: {writes}", k.node.lineno)
+    if n < 8:
+        raise AnalysisError(f"IFACE-1: only {n} IR node classes found")
+    return rr
